@@ -239,6 +239,7 @@ PROPS["C17"]["units"].append(U("TestVerif_C14_Schedule", PROC, R(1500), R(30000,
 # of C01 and C03 run under C06 too, with smaller budgets
 PROPS["C06"]["units"].append(U("TestVerif_C01_Safety", PROC, R(800), R(20000, shards=16, timeout=1500)))
 PROPS["C06"]["units"].append(U("TestVerif_C03_Observations", PROC, R(800), R(20000, shards=16, timeout=1500)))
+PROPS["C19"]["units"].append(U("TestVerif_C19_DedupInterleavings", "./deduplicator", R(800, shards=2), R(30000, shards=16, timeout=1500), module=EX, race=True, replay_tries=2, replay_repeat=3))
 PROPS["C19"]["units"].append(U("TestVerif_C06_ExplorerVerify", "./processor", R(800), R(20000, shards=16, timeout=1500), module=EX))
 
 ALPH = "./pkg/alephium"
